@@ -345,9 +345,9 @@ func run(r *vrt.Run) {
 			worlds[rs] = append(worlds[rs], buildWorld(r, rs, k))
 		}
 	}
-	n := r.N(6000, 1_200_000)
+	n := r.N(6000, 400_000)
 	if r.Race() {
-		n = r.N(400, 60_000) // 5 % sample under the race detector / checkptr
+		n = r.N(400, 20_000) // 5 % sample under the race detector / checkptr
 	}
 	sh := &shared{opsSeen: map[string]*[256]bool{}, reasons: map[string]int{}}
 	for _, rs := range evmenv.RuleSets {
